@@ -449,7 +449,9 @@ pub fn check(img: &Image, raw: &[u8]) -> CheckResult {
         let per = sl / 4 - 1;
         if !img.difat_sectors.is_empty() {
             let needed = (img.fat_sectors.len().saturating_sub(109) + per - 1) / per;
-            rule!(needed == img.difat_sectors.len(), "difat_sector_count", "{} FAT sectors need {} DIFAT sectors, chain has {}", img.fat_sectors.len(), needed, img.difat_sectors.len());
+            // (a chain that is *longer* than needed - a spare, empty DIFAT sector at its end -
+            // is what some writers pre-allocate; MS-CFB does not forbid it)
+            rule!(needed <= img.difat_sectors.len(), "difat_sector_count", "{} FAT sectors need {} DIFAT sectors, chain has {}", img.fat_sectors.len(), needed, img.difat_sectors.len());
         }
     }
     // ---- FAT
